@@ -19,7 +19,7 @@ CONSTANTS
   UseSelf = FALSE
   UseDiverge = FALSE
   UseAdv = FALSE
-  Scen = {1, 2, 5, 7}
+  Scen = {1, 2, 5, 7, 8}
 SPECIFICATION CSpec
 INVARIANT Inv_Serializable
 INVARIANT Inv_Lemma
